@@ -15,7 +15,13 @@ generated objects read-only before first use and runs every public operation on 
 type descriptor (any store is reported with pc -> file:line and address -> symbol; the
 image is also compared byte by byte with a snapshot), and (b) runs the same battery from
 N threads released by a barrier before any use of a type, under ThreadSanitizer, each
-thread's log compared with its solo run."""
+thread's log compared with its solo run.
+Round 3 (seeded change C19-5): the type shapes come from lib/c19_zoo.py - the decisions the skeleton codecs take on the contents of
+specifics / member tables / constraint records, one type per side (module C19Z), evaluated on the linked tables by `c19drv shapes`;
+per type valid and invalid values (directed seeds, foreign-version peers, mutilated / zeroed / absent structures), other BER forms,
+failing callbacks at several positions, caller-provided structures, stack limits; oracles PARTS (every table reachable from a
+descriptor is inside the watched image) and CLOSURE (no word of the image points at writable memory outside it: hypothesis `closed`
+of coq/Conc/DescrClosure.v); thorough tier: gcov function / line / branch coverage of the skeletons under the same battery."""
 import sys, os, re, time
 sys.path.insert(0, os.path.join(os.path.dirname(os.path.abspath(__file__)), "..", "lib"))
 sys.path.insert(0, os.path.join(os.path.dirname(os.path.abspath(__file__)), "..", "harness"))
@@ -123,6 +129,7 @@ def dynamic_part(run, tier, scr):
                                   {"what": "a probe of a library entry point ended in signal %s" % pr["sig"], "probe": pr, "asn1c_options": v["opts"]})
             # every table reachable from a descriptor (specifics and the maps behind them included) lies inside the watched image
             info["ro"]["descriptor_parts"] = ro["parts"]
+            info["ro"]["calls_per_operation"] = dict(sorted(ro["ops"].items()))
             if ro["summary"] and (ro["parts"] is None or ro["parts"].get("outside", 1) != 0):
                 run.violation("ro-image:parts(%s)" % tag,
                               {"what": "a table reachable from a type descriptor (descriptor, tags, member table, specifics and their maps, constraint records) lies outside "
@@ -169,7 +176,7 @@ def dynamic_part(run, tier, scr):
                                "stores": ev["stores"][:8], "changed": ev["diffs"][:8], "asn1c_options": v["opts"],
                                "replay_cmd": "lib/c19_util.build_variant(...'%s'...); <variant>/ro/c19drv ro %d %d" % (tag, run.seed, 4 if tier == "quick" else 12)})
             # (b) threads behind a barrier, ThreadSanitizer
-            rounds = [(run.seed, 4, 2)] if tier == "quick" else [(run.seed + k, 2 + 2 * (k % 4), 3) for k in range(4)]
+            rounds = [(run.seed, 4, 2)] if tier == "quick" else [(run.seed, 2, 2), (run.seed + 1, 4, 2), (run.seed + 2, 8, 2)]
             info["thr"] = []
             t0 = time.time()
             for (sd, nthr, iters) in rounds:
@@ -402,9 +409,11 @@ def main(tier):
                        "descr_unchanged is tied by testing, not proved: the read-only image detector sees every store executed by the battery "
                        "(all types of %s under the listed asn1c option sets, valid + damaged inputs); a store on a path the battery does not "
                        "execute is not seen - `unreached_functions_all_variants` lists the library functions never entered" % ", ".join(dyn.get("modules") or []),
-                       "not exercised: failing output callbacks (unchanged library asserts: C07), OER encoding of values that fail their own constraint check "
-                       "(BIT_STRING_encode_oer padding loop never terminates: C07), compare with a NULL operand (BIT_STRING_compare crashes), ber_tlv_tag_string / asn_bit_data_string "
-                       "(documented static-buffer debug helpers), -DASN_DEBUG builds",
+                       "the type shapes are those of lib/c19_zoo.py (decision list SHAPES derived by hand from the branch conditions of the skeleton codecs; "
+                       "`dynamic.shapes.missing` lists sides without a type, `dynamic.gcov` (thorough tier) the functions never executed and the branches never taken)",
+                       "not exercised: allocation failure (C14's harness injects it), compare with a NULL operand (BIT_STRING_compare crashes), ber_tlv_tag_string / "
+                       "asn_bit_data_string (documented static-buffer debug helpers), -DASN_DEBUG builds, -fno-constraints (asn_check_constraints calls a NULL checker for "
+                       "reference types), oer_decode()/oer_encode() on types without an OER codec (open finding C19-oer-entry-null-codec: probed, not part of the battery)",
                        "random() is replaced by a thread-local generator in the harness: asn_random_fill's use of libc's shared random state is outside the property",
                        "TSan suppressions (harness/c19_tsan.supp): glibc's tz state behind its internal tzset_lock, reached through mktime()"],
                    "notes": run.notes},
@@ -415,7 +424,9 @@ def main(tier):
                       "hypothesis descr_unchanged of C19_descr_invariant / C19_statics_and_descr_imply_irrelevant (no call stores into the type tables): "
                       "tied dynamically by harness/c19drv.c (mprotect read-only image + SIGSEGV single-step logger + snapshot compare, self-tested by "
                       "three canary stores every run; Linux x86-64, dl_iterate_phdr, GNU ld RELRO layout) and by the TSan battery of the same driver",
-                      "lib/c19_util.py hand-made modules C19K/C19X + one modgen module: the set of type shapes the tie quantifies over"],
+                      "lib/c19_util.py hand-made modules C19K/C19X, lib/c19_zoo.py module C19Z (one type per side of the decision list SHAPES) + one modgen module: "
+                      "the set of type shapes the tie quantifies over; SHAPES itself is a hand review of skeletons/*.c, cross-checked by the gcov report of the thorough tier",
+                      "PARTS / CLOSURE scans of harness/c19drv.c (dl_iterate_phdr, /proc/self/maps; every aligned word of the image taken as a potential pointer)"],
         checker_cmd="coqc -Q coq A1 <scratch>/Gen_Statics.v",
         assumptions=["axioms printed: %s" % (sorted(axioms) or "none (Closed under the global context)"),
                      "x86-64 LP64, gcc default PIE code model; glibc MT-safety of the externals listed in statics_allow.json",
